@@ -275,11 +275,12 @@ def render_modules(prog, pkg, order=None):
         d = prog["defs"][name]
         out[d["where"]] += render_def(name, d, prog, pkg) + "\n"
     # aliases (a second name bound to the same object), after all definitions of the module
+    amap = prog.get("alias_map", {})
     for name, d in prog["defs"].items():
         if d["kind"] != "var":
             for t, form in d["refs"]:
                 if form == "alias" and t in prog["defs"] and prog["defs"][t]["where"] == d["where"]:
-                    line = "a_%s = %s\n" % (t, t)
+                    line = "a_%s = %s\n" % (t, amap.get(t, t))
                     if line not in out[d["where"]]:
                         out[d["where"]] += line
     return out
@@ -305,7 +306,8 @@ def visible_refs(prog, name):
     d = prog["defs"][name]
     if d["kind"] == "var":
         return []
-    return [t for t, form in d["refs"] if form != "hidden"]
+    amap = prog.get("alias_map", {})
+    return [(amap.get(t, t) if form == "alias" else t) for t, form in d["refs"] if form != "hidden"]
 
 
 def reach_memento(prog, root):
